@@ -1,9 +1,412 @@
-// xpath / match / nodelist / serialize commands of xvdrv (filled in incrementally).
+// xpath / match / nodelist commands of xvdrv: direct use of the XPath engine on native and
+// Xerces-wrapped trees, with variable and prefix bindings supplied by the caller.
 #pragma once
 #include "xvproto.hpp"
 #include "xvcommon.hpp"
+
+#include <sstream>
+#include <stdint.h>
+#include <xercesc/framework/MemBufInputSource.hpp>
+#include <xercesc/parsers/XercesDOMParser.hpp>
+#include <xercesc/sax/HandlerBase.hpp>
+#include <xercesc/sax/SAXParseException.hpp>
+#include <xalanc/XalanDOM/XalanAttr.hpp>
+#include <xalanc/XalanDOM/XalanElement.hpp>
+#include <xalanc/PlatformSupport/PrefixResolver.hpp>
+#include <xalanc/PlatformSupport/FormatterListener.hpp>
+#include <xalanc/DOMSupport/DOMSupportDefault.hpp>
+#include <xalanc/XPath/XObject.hpp>
+#include <xalanc/XPath/XObjectFactoryDefault.hpp>
+#include <xalanc/XPath/XPath.hpp>
+#include <xalanc/XPath/XPathConstructionContextDefault.hpp>
+#include <xalanc/XPath/XPathEnvSupportDefault.hpp>
+#include <xalanc/XPath/XPathExecutionContextDefault.hpp>
+#include <xalanc/XPath/XPathProcessorImpl.hpp>
+#include <xalanc/XPath/XalanQName.hpp>
+#include <xalanc/XPath/MutableNodeRefList.hpp>
+#include <xalanc/XPath/NodeRefList.hpp>
+#include <xalanc/XalanSourceTree/XalanSourceTreeDOMSupport.hpp>
+#include <xalanc/XalanSourceTree/XalanSourceTreeParserLiaison.hpp>
+#include <xalanc/XercesParserLiaison/XercesParserLiaison.hpp>
+#include <xalanc/XercesParserLiaison/XercesDOMSupport.hpp>
+#include <xalanc/XercesParserLiaison/XercesDocumentWrapper.hpp>
+
 namespace xvextra {
-inline void init() {}
-inline void term() {}
-inline bool dispatch(const std::string& cmd, const xv::Msg& q, xv::Msg& r) { (void)cmd; (void)q; (void)r; return false; }
+using namespace xalanc;
+using namespace xv;
+
+struct ErrH : public xercesc::HandlerBase {
+    void fatalError(const xercesc::SAXParseException& e) { throw xercesc::SAXParseException(e); }
+    void error(const xercesc::SAXParseException& e) { throw xercesc::SAXParseException(e); }
+    void warning(const xercesc::SAXParseException&) {}
+};
+
+// A parsed document kept alive with everything it depends on.
+struct Doc {
+    bool xerces;
+    XalanSourceTreeDOMSupport* stSupport; XalanSourceTreeParserLiaison* stLiaison;
+    xercesc::XercesDOMParser* xparser; XercesParserLiaison* xLiaison; XercesDOMSupport* xSupport;
+    XalanDocument* doc;
+    Doc() : xerces(false), stSupport(0), stLiaison(0), xparser(0), xLiaison(0), xSupport(0), doc(0) {}
+    DOMSupport& support() { return xerces ? (DOMSupport&)*xSupport : (DOMSupport&)*stSupport; }
+    void destroy() {
+        delete stLiaison; delete stSupport;
+        delete xSupport; delete xLiaison; delete xparser;
+    }
+};
+
+static std::map<long, Doc> g_docs;
+static long g_nextDoc = 1;
+
+inline bool isNsDecl(const XalanDOMString& n) {
+    static const XalanDOMChar x[] = {'x', 'm', 'l', 'n', 's', 0};
+    if (n.length() < 5) return false;
+    for (int i = 0; i < 5; ++i) if (n[i] != x[i]) return false;
+    return n.length() == 5 || n[5] == ':';
 }
+
+inline std::string pathOf(const XalanNode* n) {
+    if (n == 0) return "(null)";
+    switch (n->getNodeType()) {
+    case XalanNode::DOCUMENT_NODE: return "/";
+    case XalanNode::DOCUMENT_FRAGMENT_NODE: return "/";
+    case XalanNode::ATTRIBUTE_NODE: {
+        const XalanAttr* a = static_cast<const XalanAttr*>(n);
+        std::string p = pathOf(a->getOwnerElement());
+        const XalanDOMString& name = n->getNodeName();
+        if (isNsDecl(name)) return p + "/ns:" + (name.length() > 6 ? u8(name).substr(6) : std::string());
+        return p + "/@" + u8(name);
+    }
+    default: {
+        const XalanNode* par = n->getParentNode();
+        long idx = 0;
+        for (const XalanNode* s = n->getPreviousSibling(); s; s = s->getPreviousSibling()) if (s->getNodeType() != XalanNode::DOCUMENT_TYPE_NODE) ++idx;
+        std::string p = par ? pathOf(par) : std::string("?");
+        if (p == "/") p.clear();
+        return p + "/" + itos(idx);
+    }
+    }
+}
+
+inline XalanNode* nodeAt(XalanDocument* d, const std::string& path) {
+    XalanNode* cur = d;
+    size_t i = 0;
+    if (path == "/") return d;
+    while (i < path.size() && cur) {
+        if (path[i] == '/') ++i;
+        size_t j = path.find('/', i); if (j == std::string::npos) j = path.size();
+        std::string comp = path.substr(i, j - i);
+        i = j;
+        if (comp.empty()) continue;
+        if (comp[0] == '@' || comp.compare(0, 3, "ns:") == 0) {
+            std::string want = comp[0] == '@' ? comp.substr(1) : (comp.size() > 3 ? "xmlns:" + comp.substr(3) : std::string("xmlns"));
+            const XalanNamedNodeMap* m = cur->getAttributes();
+            XalanNode* found = 0;
+            if (m) for (XalanSize_t k = 0; k < m->getLength(); ++k) if (u8(m->item(k)->getNodeName()) == want) { found = m->item(k); break; }
+            cur = found;
+        } else {
+            long idx = strtol(comp.c_str(), 0, 10);
+            XalanNode* c = cur->getFirstChild();
+            while (c && c->getNodeType() == XalanNode::DOCUMENT_TYPE_NODE) c = c->getNextSibling();
+            while (c && idx-- > 0) { c = c->getNextSibling(); while (c && c->getNodeType() == XalanNode::DOCUMENT_TYPE_NODE) c = c->getNextSibling(); }
+            cur = c;
+        }
+    }
+    return cur;
+}
+
+class MapResolver : public PrefixResolver {
+public:
+    std::map<std::string, XalanDOMString*> m; XalanDOMString uri;
+    ~MapResolver() { for (std::map<std::string, XalanDOMString*>::iterator i = m.begin(); i != m.end(); ++i) delete i->second; }
+    void add(const std::string& p, const std::string& u) { XalanDOMString* s = new XalanDOMString(xs(u)); delete m[p]; m[p] = s; }
+    void load(const std::string& spec) {   // "prefix=uri\n..."
+        size_t i = 0;
+        while (i < spec.size()) { size_t j = spec.find('\n', i); if (j == std::string::npos) j = spec.size(); std::string ln = spec.substr(i, j - i); i = j + 1; size_t e = ln.find('='); if (e != std::string::npos) add(ln.substr(0, e), ln.substr(e + 1)); }
+    }
+    virtual const XalanDOMString* getNamespaceForPrefix(const XalanDOMString& prefix) const {
+        std::map<std::string, XalanDOMString*>::const_iterator i = m.find(u8(prefix));
+        return i == m.end() ? 0 : i->second;
+    }
+    virtual const XalanDOMString& getURI() const { return uri; }
+};
+
+class VarCtx : public XPathExecutionContextDefault {
+public:
+    VarCtx(XPathEnvSupport& e, DOMSupport& d, XObjectFactory& f) : XPathExecutionContextDefault(e, d, f) {}
+    std::map<std::string, XObjectPtr> vars;    // "{uri}local"
+    virtual const XObjectPtr getVariable(const XalanQName& name, const Locator* locator = 0) {
+        std::string k = "{" + u8(name.getNamespace()) + "}" + u8(name.getLocalPart());
+        std::map<std::string, XObjectPtr>::iterator i = vars.find(k);
+        if (i != vars.end()) return i->second;
+        return XPathExecutionContextDefault::getVariable(name, locator);
+    }
+};
+
+class Chars : public FormatterListener {
+public:
+    Chars() : FormatterListener(OUTPUT_METHOD_NONE) {}
+    std::string got; long calls;
+    virtual void charactersRaw(const XMLCh* const c, const size_type n) { u16to8(c, n, got); ++calls; }
+    virtual void comment(const XMLCh* const) {}
+    virtual void cdata(const XMLCh* const, const size_type) {}
+    virtual void entityReference(const XMLCh* const) {}
+    virtual void characters(const XMLCh* const c, const size_type n) { u16to8(c, n, got); ++calls; }
+    virtual void endDocument() {}
+    virtual void endElement(const XMLCh* const) {}
+    virtual void ignorableWhitespace(const XMLCh* const, const size_type) {}
+    virtual void processingInstruction(const XMLCh* const, const XMLCh* const) {}
+    virtual void resetDocument() {}
+    virtual void setDocumentLocator(const xercesc::Locator* const) {}
+    virtual void startDocument() {}
+    virtual void startElement(const XMLCh* const, AttributeListType&) {}
+};
+
+inline std::string dbits(double d) { uint64_t b; memcpy(&b, &d, 8); char buf[32]; snprintf(buf, sizeof buf, "%016llx", (unsigned long long)b); return buf; }
+inline double bitsd(const std::string& h) { uint64_t b = strtoull(h.c_str(), 0, 16); double d; memcpy(&d, &b, 8); return d; }
+
+inline std::string excText(const XSLException& e) { XalanDOMString s; e.defaultFormat(s); return u8(s); }
+
+inline const char* typeName(XObject::eObjectType t) {
+    switch (t) {
+    case XObject::eTypeBoolean: return "boolean";
+    case XObject::eTypeNumber: return "number";
+    case XObject::eTypeString: return "string";
+    case XObject::eTypeNodeSet: return "node-set";
+    case XObject::eTypeResultTreeFrag: return "rtf";
+    case XObject::eTypeNull: return "null";
+    default: return "other";
+    }
+}
+
+inline std::string nodesOf(const NodeRefListBase& l, Doc* home, bool withDoc) {
+    std::string out;
+    for (NodeRefListBase::size_type i = 0; i < l.getLength(); ++i) {
+        XalanNode* n = l.item(i);
+        if (withDoc) {
+            // identify the document by handle
+            const XalanDocument* od = n->getNodeType() == XalanNode::DOCUMENT_NODE ? static_cast<const XalanDocument*>(n) : n->getOwnerDocument();
+            long h = 0;
+            for (std::map<long, Doc>::iterator k = g_docs.begin(); k != g_docs.end(); ++k) if (k->second.doc == od) h = k->first;
+            out += itos(h) + ":";
+        }
+        out += pathOf(n); out += '\n';
+    }
+    return out;
+}
+
+// ---------------------------------------------------------------------------------------
+inline void cmdXdoc(const Msg& q, Msg& r) {
+    Doc d;
+    const std::string& xml = get(q, "xml");
+    d.xerces = geti(q, "xerces") != 0;
+    xercesc::MemBufInputSource mb((const XMLByte*)xml.data(), xml.size(), "xvdoc.xml");
+    try {
+        if (!d.xerces) {
+            d.stSupport = new XalanSourceTreeDOMSupport;
+            d.stLiaison = new XalanSourceTreeParserLiaison(*d.stSupport);
+            d.stSupport->setParserLiaison(d.stLiaison);
+            d.doc = d.stLiaison->parseXMLStream(mb);
+        } else {
+            d.xparser = new xercesc::XercesDOMParser;
+            static ErrH eh; d.xparser->setErrorHandler(&eh);
+            d.xparser->setDoNamespaces(true);
+            d.xparser->setCreateEntityReferenceNodes(false);
+            d.xparser->parse(mb);
+            d.xLiaison = new XercesParserLiaison;
+            d.xSupport = new XercesDOMSupport(*d.xLiaison);
+            d.doc = d.xLiaison->createDocument(d.xparser->getDocument(), geti(q, "threadsafe") != 0, geti(q, "buildwrapper", 1) != 0, geti(q, "buildmaps", 1) != 0);
+        }
+    } catch (...) { d.destroy(); throw; }
+    long h = g_nextDoc++;
+    g_docs[h] = d;
+    r["doc"] = itos(h);
+}
+
+inline void cmdXdocdel(const Msg& q, Msg& r) {
+    std::map<long, Doc>::iterator i = g_docs.find(geti(q, "doc"));
+    if (i == g_docs.end()) { r["error"] = "no such doc"; return; }
+    i->second.destroy(); g_docs.erase(i);
+}
+
+inline void cmdXnodes(const Msg& q, Msg& r) {   // all node paths in the driver's own pre-order walk
+    std::map<long, Doc>::iterator i = g_docs.find(geti(q, "doc"));
+    if (i == g_docs.end()) { r["error"] = "no such doc"; return; }
+    std::string out;
+    struct W { static void walk(const XalanNode* n, std::string& out) {
+        out += pathOf(n); out += '\n';
+        const XalanNamedNodeMap* m = n->getNodeType() == XalanNode::ELEMENT_NODE ? n->getAttributes() : 0;
+        if (m) for (XalanSize_t k = 0; k < m->getLength(); ++k) { out += pathOf(m->item(k)); out += '\n'; }
+        for (const XalanNode* c = n->getFirstChild(); c; c = c->getNextSibling()) if (c->getNodeType() != XalanNode::DOCUMENT_TYPE_NODE) walk(c, out);
+    } };
+    W::walk(i->second.doc, out);
+    r["nodes"] = out;
+}
+
+// vars: records "name\x1ftype\x1fvalue\x1e..." ; name is "{uri}local"; types: num(hexbits) str bool(0/1) nodes(paths, ';')
+inline void loadVars(VarCtx& ctx, XObjectFactory& f, Doc& d, const std::string& spec) {
+    size_t i = 0;
+    while (i < spec.size()) {
+        size_t j = spec.find('\x1e', i); if (j == std::string::npos) j = spec.size();
+        std::string rec = spec.substr(i, j - i); i = j + 1;
+        size_t a = rec.find('\x1f'), b = rec.find('\x1f', a + 1);
+        if (a == std::string::npos || b == std::string::npos) continue;
+        std::string name = rec.substr(0, a), type = rec.substr(a + 1, b - a - 1), val = rec.substr(b + 1);
+        if (type == "num") ctx.vars[name] = f.createNumber(bitsd(val));
+        else if (type == "str") ctx.vars[name] = f.createString(xs(val));
+        else if (type == "bool") ctx.vars[name] = f.createBoolean(val == "1");
+        else if (type == "nodes") {
+            XPathExecutionContext::BorrowReturnMutableNodeRefList l(ctx);
+            size_t p = 0;
+            while (p < val.size()) { size_t e = val.find(';', p); if (e == std::string::npos) e = val.size(); std::string path = val.substr(p, e - p); p = e + 1; if (path.empty()) continue; XalanNode* n = nodeAt(d.doc, path); if (n) l->addNode(n); }
+            l->setDocumentOrder();
+            ctx.vars[name] = f.createNodeSet(l);
+        }
+    }
+}
+
+inline void cmdXpath(const Msg& q, Msg& r) {
+    std::map<long, Doc>::iterator di = g_docs.find(geti(q, "doc"));
+    if (di == g_docs.end()) { r["error"] = "no such doc"; return; }
+    Doc& d = di->second;
+    MemoryManager& mm = XalanMemMgrs::getDefaultXercesMemMgr();
+    XPathEnvSupportDefault env(mm);
+    XObjectFactoryDefault xof(mm);
+    XPathConstructionContextDefault cctx(mm);
+    VarCtx ectx(env, d.support(), xof);
+    MapResolver res; res.load(get(q, "ns"));
+    XalanNode* ctxNode = nodeAt(d.doc, get(q, "ctx", "/"));
+    if (!ctxNode) { r["error"] = "no such context node"; return; }
+    const std::string entry = get(q, "entry", "generic");
+    XPath xp(mm);
+    XPathProcessorImpl proc(mm);
+    try {
+        proc.initXPath(xp, cctx, xs(get(q, "expr")), res);
+    } catch (const XSLException& e) { r["compile_error"] = excText(e); return; }
+    r["compiled"] = "1";
+    loadVars(ectx, xof, d, get(q, "vars"));
+    // context node list (position / size)
+    MutableNodeRefList ctxList(mm);
+    bool haveList = has(q, "ctxlist");
+    if (haveList) {
+        const std::string& val = get(q, "ctxlist"); size_t p = 0;
+        while (p < val.size()) { size_t e = val.find(';', p); if (e == std::string::npos) e = val.size(); std::string path = val.substr(p, e - p); p = e + 1; if (path.empty()) continue; XalanNode* n = nodeAt(d.doc, path); if (n) ctxList.addNode(n); }
+        ctxList.setDocumentOrder();
+    }
+    const bool all = entry == "all";
+#define XV_TRY(tag, body) try { body } catch (const XSLException& e) { r[std::string(tag) + "_error"] = excText(e); }
+    if (all || entry == "generic") XV_TRY("generic", {
+        const XObjectPtr v(haveList ? xp.execute(ctxNode, res, ctxList, ectx) : xp.execute(ctxNode, res, ectx));
+        r["type"] = typeName(v->getType());
+        if (v->getType() == XObject::eTypeNodeSet) { r["nodes"] = nodesOf(v->nodeset(), &d, false); r["docorder"] = "1"; }
+        // standard conversions of the general value
+        r["g_bool"] = v->boolean(ectx) ? "1" : "0";
+        r["g_num"] = dbits(v->num(ectx));
+        r["g_str"] = u8(v->str(ectx));
+        { Chars c; c.calls = 0; v->str(ectx, c, &FormatterListener::characters); r["g_chars"] = c.got; }
+        { XalanDOMString s; v->str(ectx, s); r["g_str_append"] = u8(s); }
+        r["g_len"] = itos(long(v->stringLength(ectx)));
+    })
+    if (all || entry == "bool") XV_TRY("bool", { bool b = false; if (haveList) xp.execute(ctxNode, res, ctxList, ectx, b); else xp.execute(ctxNode, res, ectx, b); r["bool"] = b ? "1" : "0"; })
+    if (all || entry == "num") XV_TRY("num", { double x = 0; if (haveList) xp.execute(ctxNode, res, ctxList, ectx, x); else xp.execute(ctxNode, res, ectx, x); r["num"] = dbits(x); })
+    if (all || entry == "str") XV_TRY("str", { XalanDOMString s; if (haveList) xp.execute(ctxNode, res, ctxList, ectx, s); else xp.execute(ctxNode, res, ectx, s); r["str"] = u8(s); })
+    if (all || entry == "chars") XV_TRY("chars", { Chars c; c.calls = 0; if (haveList) xp.execute(ctxNode, res, ctxList, ectx, c, &FormatterListener::characters); else xp.execute(ctxNode, res, ectx, c, &FormatterListener::characters); r["chars"] = c.got; })
+    if (all || entry == "nodelist") XV_TRY("nodelist", {
+        MutableNodeRefList l(mm);
+        const XObjectPtr v(haveList ? xp.execute(ctxNode, res, ctxList, ectx, l) : xp.execute(ctxNode, res, ectx, l));
+        if (v.null()) r["nodelist"] = nodesOf(l, &d, false);
+        else { r["nodelist"] = nodesOf(v->nodeset(), &d, false); r["nodelist_via_xobject"] = "1"; }
+    })
+#undef XV_TRY
+    ectx.vars.clear();
+}
+
+// match: pattern vs every node of the document -> "path score" lines (score: none or number)
+inline void cmdMatch(const Msg& q, Msg& r) {
+    std::map<long, Doc>::iterator di = g_docs.find(geti(q, "doc"));
+    if (di == g_docs.end()) { r["error"] = "no such doc"; return; }
+    Doc& d = di->second;
+    MemoryManager& mm = XalanMemMgrs::getDefaultXercesMemMgr();
+    XPathEnvSupportDefault env(mm);
+    XObjectFactoryDefault xof(mm);
+    XPathConstructionContextDefault cctx(mm);
+    VarCtx ectx(env, d.support(), xof);
+    MapResolver res; res.load(get(q, "ns"));
+    XPath xp(mm);
+    XPathProcessorImpl proc(mm);
+    try { proc.initMatchPattern(xp, cctx, xs(get(q, "pattern")), res); }
+    catch (const XSLException& e) { r["compile_error"] = excText(e); return; }
+    loadVars(ectx, xof, d, get(q, "vars"));
+    std::string out;
+    struct W { static void one(XalanNode* n, const XPath& xp, const PrefixResolver& res, XPathExecutionContext& ectx, std::string& out) {
+        XPath::eMatchScore s = xp.getMatchScore(n, res, ectx);
+        out += pathOf(n); out += ' ';
+        if (s == XPath::eMatchScoreNone) out += "none"; else { char b[32]; snprintf(b, sizeof b, "%g", XPath::getMatchScoreValue(s)); out += b; }
+        out += '\n';
+    }
+    static void walk(XalanNode* n, const XPath& xp, const PrefixResolver& res, XPathExecutionContext& ectx, std::string& out) {
+        one(n, xp, res, ectx, out);
+        const XalanNamedNodeMap* m = n->getNodeType() == XalanNode::ELEMENT_NODE ? n->getAttributes() : 0;
+        if (m) for (XalanSize_t k = 0; k < m->getLength(); ++k) one(m->item(k), xp, res, ectx, out);
+        for (XalanNode* c = n->getFirstChild(); c; c = c->getNextSibling()) if (c->getNodeType() != XalanNode::DOCUMENT_TYPE_NODE) walk(c, xp, res, ectx, out);
+    } };
+    try { W::walk(d.doc, xp, res, ectx, out); }
+    catch (const XSLException& e) { r["match_error"] = excText(e); }
+    r["scores"] = out;
+    ectx.vars.clear();
+}
+
+// nodelist: ops on a MutableNodeRefList (C12).  ops separated by '\n':
+//   add <doc>:<path> | addindoc <doc>:<path> | addlist <order:doc|rev|unk> <doc>:<path>;...
+//   | addlistindoc <order> ... | reverse | clear | removedups? (not public) | setorder doc|rev|unk
+inline void cmdNodelist(const Msg& q, Msg& r) {
+    MemoryManager& mm = XalanMemMgrs::getDefaultXercesMemMgr();
+    // execution context from the first document named (needed by addNodeInDocOrder)
+    std::map<long, Doc>::iterator d0 = g_docs.find(geti(q, "doc"));
+    if (d0 == g_docs.end()) { r["error"] = "no such doc"; return; }
+    XPathEnvSupportDefault env(mm);
+    XObjectFactoryDefault xof(mm);
+    VarCtx ectx(env, d0->second.support(), xof);
+    MutableNodeRefList list(mm);
+    struct P { static XalanNode* node(const std::string& spec) {
+        size_t c = spec.find(':'); if (c == std::string::npos) return 0;
+        std::map<long, Doc>::iterator d = g_docs.find(strtol(spec.substr(0, c).c_str(), 0, 10));
+        if (d == g_docs.end()) return 0;
+        return nodeAt(d->second.doc, spec.substr(c + 1));
+    } };
+    const std::string& ops = get(q, "ops");
+    size_t i = 0; long n = 0;
+    while (i < ops.size()) {
+        size_t j = ops.find('\n', i); if (j == std::string::npos) j = ops.size();
+        std::string op = ops.substr(i, j - i); i = j + 1; ++n;
+        std::istringstream is(op); std::string verb; is >> verb;
+        if (verb == "add" || verb == "addindoc") { std::string sp; is >> sp; XalanNode* nd = P::node(sp); if (!nd) { r["error"] = "bad node " + sp; return; } if (verb == "add") list.addNode(nd); else list.addNodeInDocOrder(nd, ectx); }
+        else if (verb == "addlist" || verb == "addlistindoc") {
+            std::string order, sp; is >> order >> sp;
+            MutableNodeRefList src(mm); size_t p = 0;
+            while (p < sp.size()) { size_t e = sp.find(';', p); if (e == std::string::npos) e = sp.size(); std::string one = sp.substr(p, e - p); p = e + 1; if (one.empty()) continue; XalanNode* nd = P::node(one); if (nd) src.addNode(nd); }
+            if (order == "doc") src.setDocumentOrder(); else if (order == "rev") src.setReverseDocumentOrder(); else src.setUnknownOrder();
+            if (verb == "addlist") list.addNodes(src); else list.addNodesInDocOrder(src, ectx);
+        }
+        else if (verb == "reverse") list.reverse();
+        else if (verb == "clear") list.clear();
+        else if (verb == "setorder") { std::string o; is >> o; if (o == "doc") list.setDocumentOrder(); else if (o == "rev") list.setReverseDocumentOrder(); else list.setUnknownOrder(); }
+        else { r["error"] = "bad op " + verb; return; }
+    }
+    r["nodes"] = nodesOf(list, 0, true);
+    r["order"] = list.getDocumentOrder() ? "doc" : list.getReverseDocumentOrder() ? "rev" : "unk";
+}
+
+inline void init() {}
+inline void term() { for (std::map<long, Doc>::iterator i = g_docs.begin(); i != g_docs.end(); ++i) i->second.destroy(); g_docs.clear(); }
+inline bool dispatch(const std::string& cmd, const Msg& q, Msg& r) {
+    if (cmd == "xdoc") cmdXdoc(q, r);
+    else if (cmd == "xdocdel") cmdXdocdel(q, r);
+    else if (cmd == "xnodes") cmdXnodes(q, r);
+    else if (cmd == "xpath") cmdXpath(q, r);
+    else if (cmd == "match") cmdMatch(q, r);
+    else if (cmd == "nodelist") cmdNodelist(q, r);
+    else return false;
+    return true;
+}
+}  // namespace xvextra
